@@ -562,7 +562,9 @@ impl DirTourist {
 			return Visit::Skip;
 		}
 
-		if !self.filter.check_dir(&path) {
+		// The origin itself is never ignored: patterns apply to what is inside it (a lone `*` in an
+		// origin-level ignore file would otherwise stop the discovery before it starts).
+		if path != self.base && !self.filter.check_dir(&path) {
 			trace!(?path, "path is ignored, adding to skip list");
 			self.skip(path);
 			return Visit::Skip;
